@@ -385,6 +385,14 @@ def run(rep, tier):
         # white-space skipping of the padded parse: cached bitmap mask (shared with C11)
         from . import c11 as _c11
         _c11.clause_shift(facts, rep, {'K1': ('::avx2::',), 'K3': ('::sse::',), 'K4': ('::avx2::', '::sse::'), 'K7': ('::avx2::',)}[cfg])
+    # 'raw control bytes below 0x20 ... are rejected': block screening, predicates and mask classes (shared with C05)
+    from . import c05 as _c05
+    for cfg5, nss5 in ((('K1', ('::avx2::',)), ('K3', ('::sse::',))) if tier == 'quick' else (('K1', ('::avx2::',)), ('K3', ('::sse::',)), ('K4', ('::avx2::', '::sse::')))):
+        f5 = get_facts(cfg5)
+        rep.unit(f5)
+        _c05.clause_e(f5, rep, nss5)
+        _c05.clause_f(f5, rep, nss5)
+        _c05.clause_g(f5, rep, nss5)
     if tier == 'quick':
         # arch-specific source of the SSE configuration (white-space tables, padding vs. load widths): cheap, every run
         facts3 = get_facts('K3')
